@@ -39,6 +39,12 @@ __all__ = ['SmtpRelayClient']
 log = logging.getSocketLogger(__name__)
 
 
+def accepted(reply):
+    # Only a positive completion reply (2xx) means the server took
+    # responsibility; 1xx/3xx replies to RCPT or to the message data do not.
+    return reply.code[0] == '2'
+
+
 def current_command(cmd):
     def deco(old_f):
         @wraps(old_f)
@@ -188,7 +194,7 @@ class SmtpRelayClient(RelayPoolClient):
         if mailfrom.is_error():
             raise SmtpRelayError.factory(mailfrom)
         for rcptto in rcpttos:
-            if not rcptto.is_error():
+            if accepted(rcptto):
                 break
         else:
             raise SmtpRelayError.factory(rcpttos[0])
@@ -237,7 +243,7 @@ class SmtpRelayClient(RelayPoolClient):
             raise
         for i, rcpt_reply in enumerate(rcpttos):
             rcpt = envelope.recipients[i]
-            if rcpt_reply.is_error():
+            if not accepted(rcpt_reply):
                 rcpt_results[rcpt] = SmtpRelayError.factory(rcpt_reply)
 
     def _deliver(self, result, envelope):
@@ -246,6 +252,8 @@ class SmtpRelayClient(RelayPoolClient):
             self._handle_encoding(envelope)
             self._send_envelope(rcpt_results, envelope)
             msg_result = self._send_message_data(envelope)
+            if not accepted(msg_result):
+                raise SmtpRelayError.factory(msg_result)
         except SmtpRelayError as e:
             result.set_exception(e)
             self._rset()
